@@ -264,14 +264,17 @@ def infer_sort(obj):
 
 def closed_holds(formula, facts=(), timeout_ms=10000):
     """decide a closed formula: returns True / False / None (unknown)"""
+    from . import values
     f = z3.simplify(_b(formula))
+    defs = list(values.DEFS)
+    del values.DEFS[:]
     if z3.is_true(f):
         return True
     if z3.is_false(f):
         return False
     s = z3.Solver()
     s.set('timeout', timeout_ms)
-    for x in facts:
+    for x in list(facts) + defs:
         s.add(x)
     s.add(z3.Not(f))
     r = s.check()
